@@ -845,6 +845,10 @@ func siteOf(class string) string {
 		return "frac/active_index.go:Search"
 	case "ingest-stuck-after-transient-fsync-error", "ack-after-failed-fsync":
 		return "frac/file_writer.go:syncLoop"
+	case "fetch-multi-batch":
+		return "fracmanager/list.go:FilterInRange"
+	case "late-doc-invisible":
+		return "frac/info.go:BuildDistribution"
 	case "append-error-under-rotation":
 		return "fracmanager/fracmanager.go:Append"
 	case "sealed-foreign-id", "sealed-missing-id":
